@@ -2,6 +2,7 @@ import Exetera.Lemmas.TransformsLeaky
 import Exetera.Lemmas.TransformsFixed
 import Exetera.Lemmas.TransformsBoolKernel
 import Exetera.Lemmas.TransformsNum
+import Exetera.Lemmas.TransformsTime4
 /-!
 # C06 — schema-typed conversion on import stores the value the text denotes, or flags it
 
@@ -224,6 +225,95 @@ example : (transformNum (parseIntRange (-128) 127) .allowEmpty [45, 53] (-5) [[4
 example : (transformNum (parseIntRange (-128) 127) .relaxed [45, 53] (-5) [[49, 50], [120], [51, 48, 48]]).toOption = none := by
   decide
 
+/-! ## timestamps: every accepted layout is stored as the UTC POSIX time of the written instant -/
+
+/-- a real calendar date and time of day -/
+structure ValidCivil (Y M D h mi s : Nat) : Prop where
+  year : 1 ≤ Y ∧ Y ≤ 9999
+  month : 1 ≤ M ∧ M ≤ 12
+  day : 1 ≤ D ∧ (D : Int) ≤ daysInMonth Y M
+  hour : h ≤ 23
+  minute : mi ≤ 59
+  second : s ≤ 59
+
+theorem ValidCivil.bounds {Y M D h mi s : Nat} (v : ValidCivil Y M D h mi s) : FieldBounds Y M D h mi s := by
+  have hd : daysInMonth Y M ≤ 31 := by unfold daysInMonth; split <;> (try split) <;> omega
+  have := v.day.2
+  exact ⟨by have := v.year; omega, by have := v.month; omega, by omega, by have := v.hour; omega,
+    by have := v.minute; omega, by have := v.second; omega⟩
+
+/-- CPython's proleptic Gregorian day number (`_ymd2ord`, as used by `datetime.timestamp()`) is the plain count of days:
+    year by year (365 or 366) and month by month -/
+theorem days_from_civil (y m d : Nat) (hy : 1 ≤ y) (h1 : 1 ≤ m) (h12 : m ≤ 12) :
+    ymd2ord y m d - epochOrd = daysFromCivil y m d := ymd2ord_eq_count y m d hy h1 h12
+
+/-- `parse_timestamp_bytes(text).timestamp()` for the seven accepted layouts, texts rendered with fixed-width decimals
+    (`L19 = YYYY-MM-DD HH:MM:SS`): `86400·days + 3600·h + 60·m + s − 60·offset` seconds plus the written fraction, in µs.
+    The two layouts with `±HH:MM` honour the written offset (D29 repaired). -/
+theorem timestamp_utc (Y M D h mi s : Nat) (v : ValidCivil Y M D h mi s) :
+    parseTimestamp (L19 Y M D h mi s) = .ok (utcMicros Y M D h mi s 0 0) ∧
+    parseTimestamp (L19 Y M D h mi s ++ utcSuffix) = .ok (utcMicros Y M D h mi s 0 0) ∧
+    (∀ f, f < 10 → parseTimestamp (L19 Y M D h mi s ++ (46 :: d1 f ++ utcSuffix)) = .ok (utcMicros Y M D h mi s (f * 100000) 0)) ∧
+    (∀ f, f < 100 → parseTimestamp (L19 Y M D h mi s ++ (46 :: d2 f ++ utcSuffix)) = .ok (utcMicros Y M D h mi s (f * 10000) 0)) ∧
+    (∀ f, f < 1000 → parseTimestamp (L19 Y M D h mi s ++ (46 :: d3 f ++ utcSuffix)) = .ok (utcMicros Y M D h mi s (f * 1000) 0)) ∧
+    (∀ neg oh om, oh < 100 → om < 100 → oh * 60 + om < 1440 →
+      parseTimestamp (L19 Y M D h mi s ++ offText neg oh om) = .ok (utcMicros Y M D h mi s 0 (offMinutes neg oh om))) ∧
+    (∀ f neg oh om, f < 1000000 → oh < 100 → om < 100 → oh * 60 + om < 1440 →
+      parseTimestamp (L19 Y M D h mi s ++ (46 :: d6 f ++ offText neg oh om))
+        = .ok (utcMicros Y M D h mi s f (offMinutes neg oh om))) := by
+  have hb := v.bounds
+  have mk := fun (us : Nat) (off : Int) (hus : us ≤ 999999) =>
+    mkTimestamp_valid Y M D h mi s us off v.year v.month v.day v.hour v.minute v.second hus
+  refine ⟨?_, ?_, ?_, ?_, ?_, ?_, ?_⟩
+  · rw [parse_plain Y M D h mi s hb]; exact mk 0 0 (by omega)
+  · rw [parse_utc Y M D h mi s hb]; exact mk 0 0 (by omega)
+  · intro f hf
+    rw [parse_utc1 Y M D h mi s hb f hf]
+    have e : (f : Int) * 100000 = ((f * 100000 : Nat) : Int) := by omega
+    rw [e]; exact mk (f * 100000) 0 (by omega)
+  · intro f hf
+    rw [parse_utc2 Y M D h mi s hb f hf]
+    have e : (f : Int) * 10000 = ((f * 10000 : Nat) : Int) := by omega
+    rw [e]; exact mk (f * 10000) 0 (by omega)
+  · intro f hf
+    rw [parse_utc3 Y M D h mi s hb f hf]
+    have e : (f : Int) * 1000 = ((f * 1000 : Nat) : Int) := by omega
+    rw [e]; exact mk (f * 1000) 0 (by omega)
+  · intro neg oh om hoh hom hlt
+    rw [parse_offset Y M D h mi s hb neg oh om hoh hom hlt]; exact mk 0 _ (by omega)
+  · intro f neg oh om hf hoh hom hlt
+    rw [parse_frac_offset Y M D h mi s hb f hf neg oh om hoh hom hlt]; exact mk f _ (by omega)
+
+/-- a date column cell `YYYY-MM-DD`: midnight UTC of that day; `_day` holds the text, `_set` is true -/
+theorem date_cell_utc (Y M D : Nat) (hY : 1 ≤ Y ∧ Y ≤ 9999) (hM : 1 ≤ M ∧ M ≤ 12) (hD : 1 ≤ D ∧ (D : Int) ≤ daysInMonth Y M) :
+    dateCell (L10 Y M D) = .ok (utcMicros Y M D 0 0 0 0 0, L10 Y M D, true) := by
+  have hd : daysInMonth Y M ≤ 31 := by unfold daysInMonth; split <;> (try split) <;> omega
+  have hne : (L10 Y M D).isEmpty = false := rfl
+  have hpad : padTo 10 (L10 Y M D) = L10 Y M D := by
+    have hl : (L10 Y M D).length = 10 := rfl
+    simp [padTo, hl, List.take_of_length_le]
+  unfold dateCell
+  simp only [stripSpace_L10, hne, Bool.false_eq_true, if_false, strptimeYmd_L10 Y M D (by omega) hM ⟨hD.1, by omega⟩]
+  have this : mkTimestamp Y M D 0 0 0 0 0 = .ok (utcMicros Y M D 0 0 0 0 0) :=
+    mkTimestamp_valid Y M D 0 0 0 0 0 hY hM hD (by omega) (by omega) (by omega) (by omega)
+  rw [this, hpad]
+
+/-- an empty (or blank) cell of a datetime / date column: timestamp 0, empty day text, `_set` false -/
+theorem time_cell_empty (cell : Bytes) (h : ∀ b ∈ cell, isSpaceByte b = true) :
+    datetimeCell cell = .ok (0, List.replicate 10 0, false) ∧ dateCell cell = .ok (0, List.replicate 10 0, false) := by
+  have hs : stripSpace cell = [] := by
+    unfold stripSpace
+    have : cell.dropWhile isSpaceByte = [] := by
+      induction cell with
+      | nil => rfl
+      | cons a l ih =>
+        simp only [List.dropWhile, h a (by simp)]
+        exact ih (fun b hb => h b (by simp [hb]))
+    rw [this]; rfl
+  constructor
+  · simp [datetimeCell, hs, padTo]
+  · simp [dateCell, hs, padTo]
+
 /-! ## companion columns stay row-aligned -/
 
 theorem numericColumn_lengths {V} (mode : Mode) (inv : V) (ks : List (CellClass V)) (r : List V × List Bool)
@@ -395,5 +485,12 @@ example : leakyImport [([97], 1), ([97, 98, 99], 7)] [demoChunk, demoChunk] Leak
   rw [leaky_freetext _ (by decide) _ _ (.cons demo_encodes (.cons demo_encodes .nil))]; rfl
 example : fixedStringTransform demoChunk 2 = .ok [97, 98, 0, 0, 97, 98] := by
   rw [fixed_truncates_to_n _ 2 _ demo_encodes]; rfl
+
+example : ValidCivil 2020 6 15 19 45 39 := ⟨by decide, by decide, by decide, by decide, by decide, by decide⟩
+-- b"2020-06-15 19:45:39+01:00" is 18:45:39 UTC = 1592246739 s
+example : parseTimestamp (L19 2020 6 15 19 45 39 ++ offText false 1 0) = .ok 1592246739000000 := by rfl
+example : boolLit [84, 114, 85, 101] = some 1 ∧ boolLit [110, 111, 112, 101] = none := by decide
+example : boolTransform demoChunk .relaxed true = .ok ([true, true, true], [false, false, false]) := by
+  rw [bool_transform_spec _ _ _ _ demo_encodes]; rfl
 
 end Exetera.Props.C06
